@@ -127,6 +127,18 @@ def r3_lookup(run, F):
     run.ob("R3-DUPLICATE-LABEL", "declare_label", "Error::DuplicateDeclarationLabel" in cons, F.where(dl), "clash must yield DuplicateDeclarationLabel")
     lm = [c for c in hirq.calls(dl["hir"]) if c.get("k") == "MethodCall" and c.get("name") == "last_mut"]
     incs = [n for n in walk(dl["hir"]) if n.get("k") == "AssignOp" and hirq.unwrap_trivial(n["lhs"]).get("name") == "resolution_id"]
+    # ... and the scope the label is pushed onto is that innermost one on every path (whatever the label is called):
+    # backward slice of the receiver of `scope.push(identifier)`
+    from rules import origins
+    pushes = [c for c in hirq.calls(dl["hir"]) if c.get("k") == "MethodCall" and c.get("name") == "push"]
+    srcs = set()
+    for c in pushes:
+        o = origins.origins(dl["hir"], c["recv"], dl.get("params", ()))
+        srcs |= set(str(k[1]).split("::")[-1] for k in o if k[0] == "call")
+    accessors = sorted(x for x in srcs if x.endswith("_mut") or x in ("index_mut", "get", "first", "last", "iter"))
+    run.ob("R3-DECLARE-INNERMOST", "declare_label pushes onto last_mut only", len(pushes) >= 1 and accessors == ["last_mut"], F.where(dl),
+           "a label belongs to the innermost open scope; the scope that receives it is obtained through %s (a label put on an outer scope survives "
+           "the end of its block: jumps into the block are accepted, a sibling block's label clashes)" % accessors)
     run.ob("R3-DECLARE-INNERMOST", "declare_label", len(lm) == 1 and len(incs) == 1, F.where(dl),
            "a label is pushed into the innermost scope (last_mut) with a fresh resolution id")
 
